@@ -320,7 +320,8 @@ func Depth1() []*Spec {
 		{Name: "quiet", Type: &Spec{Kind: KBool}, Conflicts: []string{"lvl"}},
 		{Name: "user", Type: &Spec{Kind: KString}, RequiredIfNot: []string{"lvl"}},
 	}})
-	out = append(out, DeepShapeSpec()) // three levels of by-value struct nesting with defaults at every level
+	out = append(out, RecursiveShapeSpecs()...) // struct-mapped objects that reach themselves through pointer fields
+	out = append(out, DeepShapeSpec())          // three levels of by-value struct nesting with defaults at every level
 	out = append(out, OneOfAllSpecs()...)
 	return out
 }
